@@ -8,3 +8,4 @@ import GPy.C03.Props
 import GPy.C20.Props
 import GPy.C06.Props
 import GPy.C01.Props
+import GPy.C04.Props
